@@ -26,7 +26,7 @@ def contract(expression: Expression) -> Expression:
         and isinstance(expression.denominator, Probability)
         and not expression.numerator.parents
         and not expression.denominator.parents
-        and set(expression.denominator.children).issubset(expression.numerator.children)
+        and set(expression.denominator.children) < set(expression.numerator.children)
     ):
         return expression
     children = set(expression.numerator.children).difference(expression.denominator.children)
